@@ -61,6 +61,11 @@ BOUNDS = {
                                        "both grid kinds, all ranges and acceptances",
               "signs": "linearity with a combination that is negative over part of q, apply(-f), differences of two "
                        "Gaussians, negative scale through DirectModel and Gxi",
+              "reuse": "every transform: data object and I(q) array compared bit for bit with copies after construction and "
+                       "apply(); apply() twice; second transform from the same data object (n <= 5, linear grids n <= 20); DirectModel twice",
+              "interleaved_construction": "fresh processes: create A, create B (all 72 ordered pairs of distinct (wavelength, "
+                                          "acceptance) configurations; B optionally built and evaluated), then build A; "
+                                          "3 spin-echo grids",
               "storage_order": "ascending / descending / rotated (cyclic shift n//3) / interleaved (two banks): transforms "
                                "with n in (5, 20), both kinds, the first two ranges, wavelength 5 / tof-increasing(2..12), "
                                "acceptance pi/2 and 0.1; DirectModel and Gxi with guinier on "
@@ -108,6 +113,72 @@ def _hist_one(arg):
     q = np.asarray(T.q_calc, float)
     vals = np.asarray(T.apply(gauss(q, s)), float)
     return [len(q), float(q[0]).hex(), float(q[-1]).hex()] + [float(v).hex() for v in vals]
+
+
+def _interleave_one(arg):
+    """(fresh process) create data set A, then the data sets in `others` (optionally building them), THEN build and
+    evaluate A; report A's observable inputs and behaviour"""
+    xi_a, cfg_a, others, s = arg
+    A = make_data(xi_a, cfg_a[0], cfg_a[1])
+    for xi_b, cfg_b, build_it in others:
+        B = make_data(xi_b, cfg_b[0], cfg_b[1])
+        if build_it:
+            Tb = build_transform(B)
+            Tb.apply(gauss(np.asarray(Tb.q_calc, float), s))
+    lam = np.atleast_1d(np.asarray(A.source.wavelength, float))
+    acc = A.sample.zacceptance
+    T = build_transform(A)
+    q = np.asarray(T.q_calc, float)
+    vals = np.asarray(T.apply(gauss(q, s)), float)
+    return {"wavelength": [float(v).hex() for v in lam], "zacceptance": [float(acc[0]).hex(), str(acc[1])],
+            "x": [float(v).hex() for v in np.asarray(A.x, float)],
+            "q": [len(q), float(q[0]).hex(), float(q[-1]).hex()], "G": [float(v).hex() for v in vals]}
+
+
+def run_interleave(case, ctx, r):
+    """
+    interleaved construction: data set A is created, then data set B with another wavelength / acceptance / set of
+    spin-echo lengths (and, in the second variant, B is also built and evaluated), THEN A is built and evaluated.
+    A's wavelength, acceptance, q_calc and values must be bit-for-bit those of A created, built and evaluated alone in
+    a fresh process.  All ordered pairs of distinct (wavelength, acceptance) configurations.
+    """
+    from .. import zygote
+    xi_a = [float(v) for v in xi_grid(case["n"], case["grid"], case["range"])]
+    xi_b = [float(v) for v in xi_grid(case["n"] + 2, "log", RANGES[1])]
+    s = case["s"]
+    configs = [[lam, acc] for lam in LAMBDAS for acc in ACCEPT]
+    alone = {}
+    for cfg in configs:
+        out = zygote.call(ctx, "c19", "mc.props.c19:_interleave_one", [xi_a, cfg, [], s])
+        if "value" not in out:
+            raise HarnessError("reference transform failed: %s" % (out,))
+        alone[tuple(cfg)] = out["value"]
+    dec = lambda v: [float.fromhex(x) for x in v[:3]]
+    for ca in configs:
+        for cb in configs:
+            if ca == cb:
+                continue
+            for built in (False, True):
+                # variant 1: B has other spin-echo lengths and is only created; variant 2: B has A's spin-echo lengths and
+                # is built and evaluated before A
+                out = zygote.call(ctx, "c19", "mc.props.c19:_interleave_one",
+                                  [xi_a, ca, [[xi_a if built else xi_b, cb, built]], s])
+                got, want = out.get("value"), alone[tuple(ca)]
+                desc = ("A = empty_sesans(xi=%s(n=%d), wavelength=%g, zacceptance=(%.4g, 'radians')); B = empty_sesans(xi=<n=%d>, "
+                        "wavelength=%g, zacceptance=(%.4g, 'radians'))%s; _make_sesans_transform(A)"
+                        % (case["grid"], case["n"], ca[0], ca[1], case["n"] if built else case["n"] + 2, cb[0], cb[1],
+                           "; B built and evaluated" if built else ""))
+                if got is None:
+                    r.fail("%s failed: %s" % (desc, out), {"clause": "shared-state", "what": "raises"}, branches=["interleaved"])
+                elif got != want:
+                    bad = [k for k in ("wavelength", "zacceptance", "x", "q", "G") if got[k] != want[k]]
+                    k = bad[0]
+                    show = (lambda v: v) if k == "zacceptance" else (lambda v: dec(v) if k != "q" else [v[0]] + dec(v[1:]))
+                    r.fail("%s: creating B changed A: %s is %s, for A alone in a fresh process it is %s (also differing: %s)"
+                           % (desc, k, show(got[k]), show(want[k]), bad[1:]),
+                           {"clause": "shared-state", "what": k, "built": built}, branches=["interleaved"])
+                else:
+                    r.ok(nt=True, outcome="interleaved:same", trans=2, branches=["interleaved"])
 
 
 def run_hist(case, ctx, r):
@@ -200,6 +271,8 @@ def cases(ctx):
     # history independence of the transform itself (module-level state): small grids, all ordered config sequences
     for n, kind, rng, s in ((5, "linear", RANGES[0], 200.0), (1, "linear", RANGES[1], 600.0), (8, "log", RANGES[1], 2000.0)):
         out.append({"kind": "hist", "n": n, "grid": kind, "range": rng, "s": s, "depth": 2 if ctx.quick else 3})
+        # interleaved construction: data set B created (and built) between creating A and building A
+        out.append({"kind": "interleave", "n": n, "grid": kind, "range": rng, "s": s})
     return out
 
 
@@ -232,11 +305,23 @@ def lam_name(lam):
     return lam if not isinstance(lam, dict) else "tof-%s(%g..%g)" % (lam["tof"], lam["shortest"], lam["longest"])
 
 
-def make_transform(xi, lam, acc):
+def make_data(xi, lam, acc):
     from sasmodels.data import empty_sesans
-    from sasmodels.direct_model import _make_sesans_transform
     lam = lam if np.isscalar(lam) else np.array(lam, float)
-    data = empty_sesans(np.array(xi, float), wavelength=lam, zacceptance=(acc, "radians"))
+    return empty_sesans(np.array(xi, float), wavelength=lam, zacceptance=(acc, "radians"))
+
+
+def build_transform(data):
+    from sasmodels.direct_model import _make_sesans_transform
+    with warnings.catch_warnings():
+        warnings.simplefilter("ignore")
+        with np.errstate(all="ignore"):
+            return _make_sesans_transform(data)
+
+
+def make_transform(xi, lam, acc):
+    from sasmodels.direct_model import _make_sesans_transform
+    data = make_data(xi, lam, acc)
     with warnings.catch_warnings():
         warnings.simplefilter("ignore")
         with np.errstate(all="ignore"):
@@ -478,6 +563,50 @@ def judge_transform(r, J, T, xi, lam, acc, svals, nxi_quad, tag=""):
     return results
 
 
+def _reuse(r, J, data, before, T, s, second=True):
+    """
+    inputs are not modified / second use: the data object handed to _make_sesans_transform and the I(q) array handed
+    to apply() stay bit-identical to their copies; apply() twice on the same array and a second transform built from
+    the SAME data object give bit-identical q_calc and values
+    """
+    def inputs_ok(stage):
+        names = H.changed(before, data)
+        if names:
+            J.bad("inputs-modified", "%s changed the caller's data object: %s"
+                  % (stage, "; ".join(H.describe_change(before, data, k) for k in names[:3])),
+                  stage=stage.split()[0], what=names[0].split(".")[-1].split("[")[0])
+    inputs_ok("construction")
+    q = np.asarray(T.q_calc, float)
+    Iq = gauss(q, s)
+    keep = Iq.copy()
+    o1 = _apply(T, Iq).copy()
+    if not np.array_equal(Iq, keep):
+        k = int(np.argmax(Iq != keep))
+        J.bad("inputs-modified", "apply() changed the I(q) array it was given: element %d was %r, is %r" % (k, keep[k], Iq[k]),
+              stage="apply", what="Iq")
+        Iq = keep.copy()
+    o2 = _apply(T, Iq)
+    if o1.shape != o2.shape or not np.array_equal(o1, o2, equal_nan=True):
+        J.bad("second-use", "apply() on the same I(q) array gives %s the first time and %s the second time" % (o1[:3], o2[:3]),
+              what="apply")
+    inputs_ok("apply()")
+    branches = ["reuse:apply-twice"]
+    if second:
+        T2 = build_transform(data)
+        q2 = np.asarray(T2.q_calc, float)
+        if q2.shape != q.shape or not np.array_equal(q, q2):
+            J.bad("second-use", "a second transform built from the same data object calculates %d q values %g..%g, the first %d "
+                  "values %g..%g" % (len(q2), q2[0], q2[-1], len(q), q[0], q[-1]), what="q_calc")
+        else:
+            o3 = _apply(T2, keep.copy())
+            if not np.array_equal(o1, o3, equal_nan=True):
+                J.bad("second-use", "a second transform built from the same data object gives %s, the first %s" % (o3[:3], o1[:3]),
+                      what="result")
+        inputs_ok("second construction")
+        branches.append("reuse:second-construction")
+    r.ok(nt=True, outcome="reuse", trans=3, branches=branches)
+
+
 def _short(v):
     v = [float(x) for x in v]
     return "[%s]" % ", ".join("%g" % x for x in v) if len(v) <= 6 else "[%g, %g, %g, ..., %g]" % (v[0], v[1], v[2], v[-1])
@@ -626,16 +755,19 @@ def run_transform(case, ctx, r):
             % (case["grid"], xi_a[0], xi_a[-1], len(xi), " stored %s %s" % (order, _short(xi)) if order else "",
                lam_name(case["lam"]) if isinstance(case["lam"], dict) else "%g" % lam_a, acc))
     J = Judge(r, fk, desc)
+    data = make_data(xi, lam, acc)
+    before = H.snapshot(data)
     if order:
         try:
-            T = make_transform(xi, lam, acc)
+            T = build_transform(data)
         except Exception as exc:  # noqa - "for every set of spin-echo lengths"
             J.bad("storage-order", "raised %s: %s (the same spin-echo lengths stored ascending construct)"
                   % (type(exc).__name__, exc), what="raises")
             r.ok(nt=True, outcome="order-raises", branches=["order:" + order])
             return
     else:
-        T = make_transform(xi, lam, acc)
+        T = build_transform(data)
+    _reuse(r, J, data, before, T, case["s"][len(case["s"]) // 2], second=len(xi) <= 5 or (len(xi) <= 20 and case["grid"] == "linear"))
     res = judge_transform(r, J, T, xi, lam, acc, case["s"], case["nxi_quad"])
     if order:
         _order_equivariance(r, J, T, xi, xi_a, lam_a, acc, perm, case["s"], order)
@@ -677,11 +809,14 @@ def run_direct(case, ctx, r):
     desc = "DirectModel(empty_sesans(xi=log(50..5000, n=12), wavelength=%g), sphere)(radius=%r, ...)" % (lam, case["radius"])
     J = Judge(r, fk, desc)
     data = empty_sesans(xi, wavelength=lam, zacceptance=(acc, "radians"))
+    before = H.snapshot(data)
     with warnings.catch_warnings():
         warnings.simplefilter("ignore")
         calc = DirectModel(data, model, cutoff=0.0)
         pars = {"radius": case["radius"], "sld": 1.0, "sld_solvent": 6.0}
-        base = np.asarray(calc(scale=1.0, background=0.0, **pars), float)
+        base = np.array(calc(scale=1.0, background=0.0, **pars), float)
+        again = np.array(calc(scale=1.0, background=0.0, **pars), float)
+        other = np.array(DirectModel(data, model, cutoff=0.0)(scale=1.0, background=0.0, **pars), float)
         with_bg = np.asarray(calc(scale=1.0, background=7.5, **pars), float)
         scaled = np.asarray(calc(scale=0.37, background=0.0, **pars), float)
         negated = np.asarray(calc(scale=-1.0, background=0.0, **pars), float)
@@ -692,6 +827,14 @@ def run_direct(case, ctx, r):
     ref = _apply(T, Iq)
     if not np.all(np.isfinite(base)) or not np.any(base != 0):
         J.bad("finite", "theory is %s" % base[:4])
+    names = H.changed(before, data)
+    if names:
+        J.bad("inputs-modified", "DirectModel changed the caller's data object: %s"
+              % "; ".join(H.describe_change(before, data, k) for k in names[:3]), stage="direct", what=names[0].split(".")[-1])
+    if not np.array_equal(base, again) or not np.array_equal(base, other):
+        J.bad("second-use", "first call %s, second call %s, second DirectModel from the same data object %s"
+              % (base[:3], again[:3], other[:3]), what="direct")
+    r.branch("reuse:direct")
     if not np.array_equal(base, with_bg):
         k = int(np.argmax(np.abs(base - with_bg)))
         J.bad("background", "background=7.5 changes the SESANS value at xi=%r: %r -> %r" % (xi[k], base[k], with_bg[k]))
@@ -743,6 +886,8 @@ def run_case(case, ctx):
         run_gxi(case, ctx, r)
     elif kind == "hist":
         run_hist(case, ctx, r)
+    elif kind == "interleave":
+        run_interleave(case, ctx, r)
     elif kind == "direct-order":
         run_direct_order(case, ctx, r)
     elif kind == "gxi-order":
@@ -763,6 +908,10 @@ def finish(ctx, report):
     report.require("direct", 3, "DirectModel path")
     report.require("gxi", 1, "Gxi path")
     report.require("history", 100, "sequences of transforms in one process")
+    report.require("interleaved", 400, "data set B created (and built) between creating and building data set A")
+    report.require("reuse:apply-twice", 300, "apply() twice on the same I(q) array; data object compared with its copy")
+    report.require("reuse:second-construction", 200, "a second transform built from the same data object")
+    report.require("reuse:direct", 3, "second call / second DirectModel from the same data object")
     for o in H.ORDERS[1:]:
         report.require("order:" + o, 30, "the same spin-echo lengths stored in another order")
     report.require("order:compared", 20, "values compared between storage orders / with the analytic value of the stored point")
